@@ -4,6 +4,8 @@ DES / 3DES / MAC computation written independently of nfcpy and of pyDes (intege
 manual), plus the fake contactless frontend that couples real nfcpy tag objects to them and lets a
 test modify responses in transit.
 """
+import functools
+
 import nfc
 import nfc.clf
 
@@ -91,8 +93,10 @@ def des_int(key64, block64, decrypt=False):
     return _perm((right << 32) | left, 64, _INV_IP)
 
 
+@functools.lru_cache(maxsize=1 << 16)
 def tdes2_int(k1, k2, block64):
-    """two-key triple DES, encrypt-decrypt-encrypt"""
+    """two-key triple DES, encrypt-decrypt-encrypt (memoised: a card is asked the same thing again
+    whenever a test repeats a script with a different modification in transit)"""
     return des_int(k1, des_int(k2, des_int(k1, block64), decrypt=True))
 
 
